@@ -68,9 +68,12 @@ class Env(object):
 
     def scalar(self, kind, which):
         """which: 'var' | 'expr' | 'lit0' | 'lit1'"""
+        from cspuz import count_true, fold_and, fold_or
+
+        # 'cexpr0' / 'cexpr1': constant-valued *expression nodes* (what the helpers return for empty or literal-only input)
         if kind == "int":
-            return {"var": self.i[1], "expr": self.i[0] + self.i[1], "lit0": 2, "lit1": -1}[which]
-        return {"var": self.b[1], "expr": self.b[0] | ~self.b[1], "lit0": True, "lit1": False}[which]
+            return {"var": self.i[1], "expr": self.i[0] + self.i[1], "lit0": 2, "lit1": -1, "cexpr0": count_true([]), "cexpr1": count_true([True, False, True])}[which]
+        return {"var": self.b[1], "expr": self.b[0] | ~self.b[1], "lit0": True, "lit1": False, "cexpr0": fold_or([]), "cexpr1": fold_and([])}[which]
 
 
 def val(x, env):
@@ -139,7 +142,7 @@ def must_work(part, key, case, E, fn, shape, kind, operands, pyfn):
     check_result(part, key, case, E, r, shape, kind, operands, pyfn)
 
 
-SCALARS = ["var", "expr", "lit0", "lit1"]
+SCALARS = ["var", "expr", "lit0", "lit1", "cexpr0", "cexpr1"]
 
 
 def run_elementwise(part, shape):
@@ -193,7 +196,7 @@ def run_elementwise(part, shape):
             must_work(part, "then[%s,arr.then(%s)]" % (tag, sc), dict(case, op="then", B=sc), E, lambda: A.then(x), shape, "bool", [A, x], imp)
             must_work(part, "then[%s,fn(arr,%s)]" % (tag, sc), dict(case, op="then_fn", B=sc), E, lambda: then_fn(A, x), shape, "bool", [A, x], imp)
             must_work(part, "then[%s,fn(%s,arr)]" % (tag, sc), dict(case, op="then_fn", B=sc, reflected=True), E, lambda: then_fn(x, A), shape, "bool", [x, A], imp)
-            if sc in ("var", "expr"):
+            if sc in ("var", "expr", "cexpr0", "cexpr1"):
                 must_work(part, "then[%s,%s.then(arr)]" % (tag, sc), dict(case, op="then", B=sc, reflected=True), E, lambda: x.then(A), shape, "bool", [x, A], imp)
         # cond: condition array / scalar x branches array / scalar
         T = E.arr("int", shape, 0)
@@ -206,7 +209,7 @@ def run_elementwise(part, shape):
             c = E.scalar("bool", sc)
             for bname, t, f in branches[:3]:
                 must_work(part, "cond[%s,fn(%s,%s)]" % (tag, sc, bname), dict(case, op="cond_fn", cond=sc, branches=bname), E, lambda: cond_fn(c, t, f), shape, "int", [c, t, f], ite)
-                if sc in ("var", "expr"):
+                if sc in ("var", "expr", "cexpr0", "cexpr1"):
                     must_work(part, "cond[%s,%s.cond(%s)]" % (tag, sc, bname), dict(case, op="cond", cond=sc, branches=bname), E, lambda: c.cond(t, f), shape, "int", [c, t, f], ite)
 
 
@@ -283,12 +286,24 @@ def run_rejections(part, shape, others):
 
 
 # ------------------------------------------------------------------ helpers
-BOOL_LEAF = ["b0", "b1", "nb0", "T", "F"]
-INT_LEAF = ["i0", "i1", "i0+1", "0", "2"]
+BOOL_LEAF = ["b0", "b1", "nb0", "T", "F", "b0|b1", "b0&b1"]
+INT_LEAF = ["i0", "i1", "i0+1", "0", "2", "i0+i1"]
 
 
 def leaf(E, name):
-    return {"b0": E.b[0], "b1": E.b[1], "nb0": ~E.b[0], "T": True, "F": False, "i0": E.i[0], "i1": E.i[1], "i0+1": E.i[0] + 1, "0": 0, "2": 2}[name]
+    return {"b0": E.b[0], "b1": E.b[1], "nb0": ~E.b[0], "T": True, "F": False, "i0": E.i[0], "i1": E.i[1], "i0+1": E.i[0] + 1, "0": 0, "2": 2,
+            "b0|b1": E.b[0] | E.b[1], "b0&b1": E.b[0] & E.b[1], "i0+i1": E.i[0] + E.i[1]}[name]
+
+
+def shape_of(x):
+    """Structure of an operand as the caller built it (operator, operand structures / variable id / literal)."""
+    from cspuz.expr import BoolVar, Expr, IntVar
+
+    if isinstance(x, (BoolVar, IntVar)):
+        return ("var", x.id)
+    if isinstance(x, Expr):
+        return (str(x.op), tuple(shape_of(o) for o in x.operands))
+    return ("lit", repr(x))
 
 
 def structures(E, leaves, kind):
@@ -331,10 +346,15 @@ def run_helpers(part, nleaves):
         for combo in itertools.product(names, repeat=nleaves):
             E = Env()
             L = [leaf(E, nm) for nm in combo]
+            before = [shape_of(x) for x in L]
             for sname, args in structures(E, L, kind):
                 case = {"helper": hname, "leaves": list(combo), "structure": sname}
                 part.count("evaluations")
                 st, r = attempt(lambda: h(*args))
+                if [shape_of(x) for x in L] != before:
+                    # the caller's own expression objects denote something else after the call
+                    part.violation("helper[%s]:argument-expression-modified" % hname, case, {"before": repr(before)[:200], "after": repr([shape_of(x) for x in L])[:200]})
+                    break
                 if st == "raises":
                     part.violation("helper[%s]:raises-%s" % (hname, type(r).__name__), case, {"exception": repr(r)[:200]})
                     continue
